@@ -5,8 +5,15 @@
 //! Generator families:
 //!   (a) valid programs: regions, labels, instructions in many spellings (stmtgen), data directives, .align, .const,
 //!       forward and backward references, included files with their own labels;
+//!       expressions over ALL operators (harness/src/exprgen.rs) on names that are declared before the use and valued
+//!       later (`.global G; ... .const G, v;` / `G:`; `.import X;` in an included file, X valued by the includer);
 //!   (b) one mutation operator per invalid construct named by the property; the generator lays the text out, so it
 //!       knows the position of the invalid statement (tag POS, only when the unmutated program assembles cleanly);
+//!       an undefined symbol / a never-valued `.global` (or `.import` of one) is put into EVERY operand position
+//!       that takes an expression (exprgen::TEMPL + `.align`, `.addr`, `.const`), inside expressions of any shape;
+//!       ill-typed operands (a register or a string inside arithmetic): tag EXPECT-DIAG where a diagnostic is
+//!       certain (a string anywhere, a register in a directive), tag ILLTYPED otherwise (only "no panic" and the
+//!       generic clauses are judged);
 //!   (c) byte-level mutations of (a) and (b): flip, delete, duplicate, structural bytes, fragments, slices.
 #[path = "../projrun.rs"]
 mod projrun;
@@ -15,6 +22,9 @@ use trion::arm6m::asm::{ImmReg, Instruction};
 use trion::arm6m::reg::Register;
 use verif_harness::stmtgen::*;
 use verif_harness::*;
+#[path = "../exprgen.rs"]
+mod exprgen;
+use exprgen::{Ex, Iv, Leaves, TEMPL};
 
 const ROOT: &str = "p.asm";
 
@@ -80,6 +90,27 @@ fn lit(v: i64, rng: &mut Rng) -> String
 	match rng.below(6) { 0 => format!("0x{:X}", v), 1 => format!("0x{:x}", v), 2 => format!("0b{:b}", v), 3 => format!("0o{:o}", v), _ => format!("{}", v) }
 }
 
+/// one statement from exprgen::TEMPL (value operands only, no PC-relative target: addresses are not tracked here) whose
+/// operand is an expression over `names` (exact values or intervals) that mentions one of `must`; the value is kept in
+/// range by construction (interval arithmetic), by `& mask` or by adding the constant that gives a chosen value
+fn deferred_stmt(rng: &mut Rng, names: &[(Ex, Iv)], must: &[String]) -> String
+{
+	let kind0: Vec<usize> = (0..TEMPL.len()).filter(|&i| TEMPL[i].kind == 0).collect();
+	let t = &TEMPL[*rng.pick(&kind0)];
+	let depth = 1 + rng.below(4) as u32;
+	let (e, (lo, hi)) = exprgen::gen_with(rng, depth, &Leaves{names}, must);
+	let pow2 = t.mask & (t.mask + 1) == 0;
+	let e = if pow2 && lo >= t.plus as i128 && hi <= (t.plus + t.mask) as i128 && rng.chance(2, 3) { e }
+		else if lo == hi && rng.chance(1, 2)
+		{
+			let w = t.plus + (rng.next() as i64 & t.mask);
+			match exprgen::close_exact(e.clone(), lo as i64, w, rng) { Some(x) => x, None => exprgen::close_mask(e, t.mask, t.plus) }
+		}
+		else { exprgen::close_mask(e, t.mask, t.plus) };
+	let minimal = rng.chance(1, 2);
+	format!("{};", t.text.replace("{}", &exprgen::show(&e, rng, minimal)))
+}
+
 /// a self-contained run of statements (own labels, own constants) that can be placed in any region or file
 /// `tag` keeps stmtgen's generated constant names unique per file; label/constant names of this generator repeat across files
 fn chunk(g: &mut G, max: u64) -> Vec<String>
@@ -90,6 +121,25 @@ fn chunk(g: &mut G, max: u64) -> Vec<String>
 	let mut consts: Vec<(String, i64)> = Vec::new();
 	let mut out: Vec<String> = Vec::new();
 	let mut post: Vec<String> = Vec::new();
+	// names that are used before they have a value: G<k> declared by `.global` first, H<k> plain forward references;
+	// the value comes at the end of the chunk (a `.const` with a value known here, or a label: an address below 0x20000)
+	let mut defs: Vec<(String, Iv)> = Vec::new();
+	if g.rng.chance(1, 2)
+	{
+		for k in 0..1 + g.rng.below(2)
+		{
+			let declared = g.rng.chance(2, 3);
+			let name = format!("{}{}", if declared { "G" } else { "H" }, k);
+			if declared { out.push(format!(".global {};", name)); }
+			if g.rng.chance(2, 3)
+			{
+				let v = match g.rng.below(4) { 0 => g.rng.range(0, 300), 1 => g.rng.range(0, 0xFFFF_FFFF), 2 => -g.rng.range(1, 200), _ => g.rng.range(2, 64) };
+				post.push(format!(".const {}, {};", name, lit(v, &mut g.rng)));
+				defs.push((name, (v as i128, v as i128)));
+			}
+			else { post.push(format!("{}:", name)); defs.push((name, (0, 0x1FFFF))); }
+		}
+	}
 	for idx in 0..n
 	{
 		if is_label[idx]
@@ -100,8 +150,18 @@ fn chunk(g: &mut G, max: u64) -> Vec<String>
 			continue;
 		}
 		let near: Vec<&(usize, String)> = labels.iter().filter(|(i, _)| (*i as i64 - idx as i64).abs() <= 5).collect();
-		match g.rng.below(16)
+		match g.rng.below(if defs.is_empty() { 16 } else { 20 })
 		{
+			16..=19 =>
+			{
+				// a data value / instruction operand over the not-yet-valued names (and constants, labels of the chunk)
+				let mut names: Vec<(Ex, Iv)> = Vec::new();
+				for (n, iv) in &defs { for _ in 0..3 { names.push((Ex::Name(n.clone()), *iv)); } }
+				for (c, v) in &consts { names.push((Ex::Name(c.clone()), (*v as i128, *v as i128))); }
+				for (_, l) in &labels { names.push((Ex::Name(l.clone()), (0, 0x1FFFF))); }
+				let must: Vec<String> = defs.iter().map(|(n, _)| n.clone()).collect();
+				out.push(deferred_stmt(&mut g.rng, &names, &must));
+			},
 			0..=4 =>
 			{
 				// any encodable 16-bit instruction that is not PC-relative, or a 32-bit one
@@ -195,12 +255,32 @@ fn valid_prog(g: &mut G, with_includes: bool) -> Prog
 		{
 			let name = format!("inc{}.asm", n_inc);
 			n_inc += 1;
-			let mut child = chunk(g, 10);
+			let cpre = format!("i{}_", n_inc);
+			let mut child: Vec<String> = chunk(g, 10).into_iter().map(|s| rename(&s, &cpre)).collect();
+			// a name the root declares before the `.include` and values after it; the included file imports and uses it
+			let mut after: Option<String> = None;
+			if g.rng.chance(1, 2)
+			{
+				let x = format!("X{}", n_inc);
+				let (iv, def) = if g.rng.chance(2, 3) { let v = g.rng.range(16, 5000); ((v as i128, v as i128), format!(".const {}, {};", x, v)) } else { ((0, 0x1FFFF), format!("{}:", x)) };
+				root.push(format!(".global {};", x));
+				let names = vec![(Ex::Name(x.clone()), iv)];
+				let mut at = 0;
+				child.insert(at, format!(".import {};", x));
+				for _ in 0..1 + g.rng.below(3)
+				{
+					at = at + 1 + g.rng.below((child.len() - at) as u64) as usize;
+					while at > 1 && child[at - 1].starts_with(".align") { at -= 1; }
+					child.insert(at, deferred_stmt(&mut g.rng, &names, &[x.clone()]));
+				}
+				after = Some(def);
+			}
 			if g.rng.chance(1, 3) && n_inc < 3
 			{
 				let gname = format!("inc{}.asm", n_inc);
 				n_inc += 1;
-				let grand = chunk(g, 6);
+				let gpre = format!("i{}_", n_inc);
+				let grand: Vec<String> = chunk(g, 6).into_iter().map(|s| rename(&s, &gpre)).collect();
 				let mut at = g.rng.below(child.len() as u64 + 1) as usize;
 				while at > 0 && child[at - 1].starts_with(".align") { at -= 1; }
 				child.insert(at, format!(".include \"{}\";", gname));
@@ -209,6 +289,7 @@ fn valid_prog(g: &mut G, with_includes: bool) -> Prog
 			root.push(format!(".include \"{}\";", name));
 			files.push((name, child));
 			if g.rng.chance(1, 2) { let more = chunk(g, 5); let pre = format!("s{}_", k); root.extend(more.into_iter().map(|s| rename(&s, &pre))); }
+			if let Some(def) = after { root.push(def); }
 		}
 	}
 	let mut all = vec![(ROOT.to_string(), root)];
@@ -216,7 +297,7 @@ fn valid_prog(g: &mut G, with_includes: bool) -> Prog
 	Prog{files: all}
 }
 
-/// prefixes the generator's own names (L<n>, C<n>) so that several chunks can share one file scope
+/// prefixes the generator's own names (L<n>, C<n>, G<n>, H<n>) so that several chunks can share one file scope
 fn rename(s: &str, pre: &str) -> String
 {
 	let b: Vec<char> = s.chars().collect();
@@ -227,7 +308,7 @@ fn rename(s: &str, pre: &str) -> String
 	{
 		let c = b[i];
 		if c == '"' && (i == 0 || b[i - 1] != '\\') { in_str = !in_str; }
-		let start_ident = !in_str && (c == 'L' || c == 'C') && (i == 0 || !(b[i - 1].is_alphanumeric() || b[i - 1] == '_' || b[i - 1] == '.'))
+		let start_ident = !in_str && (c == 'L' || c == 'C' || c == 'G' || c == 'H') && (i == 0 || !(b[i - 1].is_alphanumeric() || b[i - 1] == '_' || b[i - 1] == '.'))
 			&& i + 1 < b.len() && b[i + 1].is_ascii_digit();
 		if start_ident
 		{
